@@ -872,3 +872,136 @@ def close_facts(fs: List[Fact]) -> List[Fact]:
                             out.append(nf)
                             changed = True
     return out
+
+
+# ---------------------------------------------------------------------------
+# Intra-procedural provenance (DESIGN 3.5): which parameters / attribute chains can flow into an expression
+
+
+def _binding_sources(fn: ast.AST) -> Dict[str, List[ast.expr]]:
+    """local name -> expressions whose value can flow into it (assignment RHS, loop iterables, with-items, comprehension iterables)."""
+    out: Dict[str, List[ast.expr]] = {}
+
+    def names_of(t: ast.AST) -> List[str]:
+        return [x.id for x in ast.walk(t) if isinstance(x, ast.Name)]
+
+    for n in ast.walk(fn):
+        if isinstance(n, ast.Assign):
+            for t in n.targets:
+                for nm in names_of(t):
+                    out.setdefault(nm, []).append(n.value)
+        elif isinstance(n, ast.AnnAssign) and n.value is not None:
+            for nm in names_of(n.target):
+                out.setdefault(nm, []).append(n.value)
+        elif isinstance(n, ast.AugAssign):
+            for nm in names_of(n.target):
+                out.setdefault(nm, []).append(n.value)
+        elif isinstance(n, (ast.For, ast.comprehension)):
+            for nm in names_of(n.target):
+                out.setdefault(nm, []).append(n.iter)
+        elif isinstance(n, ast.NamedExpr):
+            out.setdefault(n.target.id, []).append(n.value)
+        elif isinstance(n, ast.withitem) and n.optional_vars is not None:
+            for nm in names_of(n.optional_vars):
+                out.setdefault(nm, []).append(n.context_expr)
+        elif isinstance(n, ast.Call) and isinstance(n.func, ast.Attribute) and n.func.attr in ("append", "extend", "add", "update", "insert") and isinstance(n.func.value, ast.Name):
+            for a in n.args:
+                out.setdefault(n.func.value.id, []).append(a)
+    return out
+
+
+def origins(fn: ast.AST, expr: ast.expr, max_steps: int = 400) -> Set[str]:
+    """Dotted names (parameters, attribute chains such as 'state.constraint') that can flow into `expr` inside `fn`."""
+    binds = _binding_sources(fn)
+    seen_names: Set[str] = set()
+    res: Set[str] = set()
+    todo: List[ast.AST] = [expr]
+    steps = 0
+    while todo and steps < max_steps:
+        steps += 1
+        e = todo.pop()
+        for n in ast.walk(e):
+            d = dotted(n) if isinstance(n, (ast.Attribute, ast.Name)) else None
+            if d:
+                res.add(d)
+            if isinstance(n, ast.Name) and n.id not in seen_names:
+                seen_names.add(n.id)
+                todo.extend(binds.get(n.id, []))
+    return res
+
+
+def _binding_sources_kinded(fn: ast.AST) -> Dict[str, List[Tuple[ast.expr, bool]]]:
+    """local name -> [(source expr, whole?)]: `whole` is False when only an element of the source flows (for-loop target, unpacking of an element)."""
+    out: Dict[str, List[Tuple[ast.expr, bool]]] = {}
+
+    def names_of(t: ast.AST) -> List[str]:
+        return [x.id for x in ast.walk(t) if isinstance(x, ast.Name)]
+
+    for n in ast.walk(fn):
+        if isinstance(n, ast.Assign):
+            for t in n.targets:
+                if isinstance(t, ast.Subscript) and isinstance(t.value, ast.Name):
+                    out.setdefault(t.value.id, []).append((n.value, True))
+                    continue
+                for nm in names_of(t):
+                    out.setdefault(nm, []).append((n.value, True))
+        elif isinstance(n, ast.AnnAssign) and n.value is not None:
+            for nm in names_of(n.target):
+                out.setdefault(nm, []).append((n.value, True))
+        elif isinstance(n, ast.AugAssign):
+            for nm in names_of(n.target):
+                out.setdefault(nm, []).append((n.value, True))
+        elif isinstance(n, ast.For):
+            for nm in names_of(n.target):
+                out.setdefault(nm, []).append((n.iter, False))
+        elif isinstance(n, ast.comprehension):
+            for nm in names_of(n.target):
+                out.setdefault(nm, []).append((n.iter, True))
+        elif isinstance(n, ast.NamedExpr):
+            out.setdefault(n.target.id, []).append((n.value, True))
+        elif isinstance(n, ast.Call) and isinstance(n.func, ast.Attribute) and n.func.attr in ("append", "extend", "add", "update", "insert") and isinstance(n.func.value, ast.Name):
+            for a in n.args:
+                out.setdefault(n.func.value.id, []).append((a, True))
+    return out
+
+
+def whole_origins(fn: ast.AST, expr: ast.expr, max_steps: int = 600) -> Set[Tuple[str, bool]]:
+    """(dotted name, whole?) pairs flowing into expr.  A flow through `x[i]`, a for-loop variable or next(..) is an *element* flow."""
+    binds = _binding_sources_kinded(fn)
+    res: Set[Tuple[str, bool]] = set()
+    seen: Set[Tuple[str, bool]] = set()
+    todo: List[Tuple[ast.AST, bool]] = [(expr, True)]
+    steps = 0
+
+    def visit(e: ast.AST, whole: bool):
+        # yields (node, whole) for names/attribute chains inside e, demoting below index subscripts / next()
+        if isinstance(e, ast.Subscript) and not isinstance(e.slice, ast.Slice):
+            visit(e.value, False)
+            return
+        if isinstance(e, ast.Call) and call_name(e) in ("next", "min", "max", "random.choice"):
+            for a in e.args:
+                visit(a, False)
+            return
+        d = dotted(e) if isinstance(e, (ast.Attribute, ast.Name)) else None
+        if d:
+            parts = d.split(".")
+            for k in range(1, len(parts) + 1):
+                res.add((".".join(parts[:k]), whole))
+            base = e
+            while isinstance(base, ast.Attribute):
+                base = base.value
+            if isinstance(base, ast.Name):
+                key = (base.id, whole)
+                if key not in seen:
+                    seen.add(key)
+                    for s, w in binds.get(base.id, []):
+                        todo.append((s, whole and w))
+            return
+        for c in ast.iter_child_nodes(e):
+            visit(c, whole)
+
+    while todo and steps < max_steps:
+        steps += 1
+        e, w = todo.pop()
+        visit(e, w)
+    return res
